@@ -22,12 +22,19 @@ Exactly one fault is injected:   NLVERIF_COP_FAULT=<step>:<kind>:<k>     (absent
         mid_reply   k-th reply: header and the first half of the payload written, then the fault
         post_reply  k-th reply written completely, then the fault (the next call meets a dead / deaf peer)
   kind  process kinds  exit0 exit1 kill(SIGKILL self) close_stdin close_stdout close_both
+                       close_stdin_alive close_stdout_alive close_both_alive
         message kinds  short_header wrong_version wrong_type len_over_max short_payload bad_tag array_huge string_over
+                       string_len_max array_huge_elem deep_nesting
 
 Post-fault behaviour (every fault must be observable through the pipes, the VM has no timeout):
   exit0/exit1/kill   the process is gone at once (os._exit / SIGKILL).
   close_stdin, close_both  close, linger 300 ms, exit 0 (a VM that already wrote sees EOF on its read).
   close_stdout       close stdout, then drain stdin until SHUTDOWN/EOF, exit 0.
+  close_*_alive      close the descriptor(s) but KEEP RUNNING (a co-process wedged in a library call): no exit on
+                     EOF or SHUTDOWN, sleep until a signal arrives (gives up after 40 s).  close_stdin_alive first
+                     completes the message the VM is waiting for (READY / the current reply) - the VM has no
+                     timeout, a silent live peer is outside the property - so the VM meets the closed pipe at its
+                     next write (next request, or SHUTDOWN at exit).  Only the VM's SIGTERM removes such a peer.
   short_header, short_payload  (truncated message) write the partial message, close stdout, drain stdin until
                      SHUTDOWN/EOF, exit 0 - so the truncation is seen as EOF and not as an eternal wait.
   other message kinds  write the complete bad message, then keep serving correctly and honour SHUTDOWN/EOF.
@@ -53,9 +60,11 @@ import time
 
 INIT, REQ, SHUTDOWN, RESULT, ERROR, READY = 0x01, 0x02, 0x03, 0x10, 0x11, 0x12
 COP_MAX_PAYLOAD = 16 * 1024 * 1024
-PROCESS_KINDS = ("exit0", "exit1", "kill", "close_stdin", "close_stdout", "close_both")
+PROCESS_KINDS = ("exit0", "exit1", "kill", "close_stdin", "close_stdout", "close_both",
+                 "close_stdin_alive", "close_stdout_alive", "close_both_alive")
 MESSAGE_KINDS = ("short_header", "wrong_version", "wrong_type", "len_over_max", "short_payload",
-                 "bad_tag", "array_huge", "string_over")
+                 "bad_tag", "array_huge", "string_over", "string_len_max", "array_huge_elem", "deep_nesting")
+DEEP = 500000         # nesting depth of the deep_nesting reply (6 bytes per level: 3 MB, below COP_MAX_PAYLOAD)
 STEPS = ("pre_ready", "post_ready", "on_req", "pre_reply", "mid_reply", "post_reply")
 
 env = os.environ
@@ -158,7 +167,7 @@ def leave(code):
 
 
 def stubborn_wait(why):
-    log("stubborn: ignoring " + why)
+    log("staying alive: " + why)
     t_end = time.time() + 40
     while time.time() < t_end:
         time.sleep(0.2)
@@ -222,14 +231,22 @@ def bad_message(kind, typ, payload):
         body = b"\x07\x01" + struct.pack("<I", 0xFFFFFFFF)
     elif kind == "string_over":
         body = b"\x05" + struct.pack("<I", 1000) + b"abcd"
+    elif kind == "string_len_max":       # complete message; pos + len wraps around 2^32 in a 32 bit bounds check
+        body = b"\x05" + struct.pack("<I", 0xFFFFFFFF) + b"abcd"
+    elif kind == "array_huge_elem":      # count 2^32-1 followed by ONE well-formed element
+        body = b"\x07\x01" + struct.pack("<I", 0xFFFFFFFF) + b"\x01" + struct.pack("<q", 5)
+    elif kind == "deep_nesting":         # DEEP one-element arrays of arrays around one int
+        body = (b"\x07\x07" + struct.pack("<I", 1)) * (DEEP - 1) + b"\x07\x01" + struct.pack("<I", 1) \
+            + b"\x01" + struct.pack("<q", 5)
     else:
         raise ValueError(kind)
     return hdr(typ, len(body)) + body
 
 
-def fire(typ, payload, already=0):
+def fire(typ, payload, already=0, pending=False):
     """Inject the fault.  (typ, payload) is the message that would be correct here; `already` bytes of the
-    payload are on the wire (mid_reply).  Returns only for message kinds that keep serving."""
+    payload are on the wire (mid_reply); `pending` = the VM is blocked waiting for this message.
+    Returns only for message kinds that keep serving."""
     global fired
     fired = True
     step, kind, k = fault
@@ -255,6 +272,19 @@ def fire(typ, payload, already=0):
     if kind == "close_stdout":
         close_fd(1)
         drain_until_end()
+    if kind == "close_stdin_alive":
+        close_fd(0)
+        if pending:
+            raw_write(payload[already:] if already else hdr(typ, len(payload)) + payload)
+            log("pending message completed")
+        stubborn_wait("stdin closed by myself")
+    if kind == "close_stdout_alive":
+        close_fd(1)
+        stubborn_wait("stdout closed by myself")
+    if kind == "close_both_alive":
+        close_fd(0)
+        close_fd(1)
+        stubborn_wait("both closed by myself")
     if kind == "short_header":
         # mid_reply: the header is already complete, the truncation then falls into the payload
         if not already:
@@ -281,7 +311,7 @@ def lookup(payload):
 def main():
     nreq = 0
     if hit("pre_ready", 1):
-        fire(READY, b"")
+        fire(READY, b"", pending=True)
     while True:
         h = read_exact(8)
         ver, typ, _, ln = struct.unpack("<BBHI", h)
@@ -291,12 +321,12 @@ def main():
         if typ == INIT:
             replaced = False
             if hit("pre_ready", 2):
-                fire(READY, b"")
+                fire(READY, b"", pending=True)
                 replaced = True
             read_exact(ln)
             log("init %d" % ln)
             if hit("pre_ready", 3):
-                fire(READY, b"")
+                fire(READY, b"", pending=True)
                 replaced = True
             if fired and fault[0] == "pre_ready":
                 replaced = True
@@ -308,7 +338,10 @@ def main():
         elif typ == REQ:
             nreq += 1
             if hit("on_req", nreq):
-                fire(RESULT, b"\x01" + struct.pack("<q", 0))
+                # the request payload is still unread: the answer that would be correct is taken from the
+                # table by position (the test programs make their calls in table order)
+                vals = list(TABLE.values())
+                fire(RESULT, vals[nreq - 1] if nreq <= len(vals) else b"\x01" + struct.pack("<q", 0), pending=True)
             payload = read_exact(ln)
             value = lookup(payload)
             log("req %d %s" % (nreq, "known" if value is not None else "UNKNOWN " + payload.hex()))
@@ -316,13 +349,13 @@ def main():
                 send(ERROR, b"fake_nano_cop: request not in table")
                 continue
             if hit("pre_reply", nreq):
-                fire(RESULT, value)
+                fire(RESULT, value, pending=True)
                 continue
             if hit("mid_reply", nreq):
                 half = max(1, len(value) // 2)
                 pause()
                 raw_write(hdr(RESULT, len(value)) + value[:half])
-                fire(RESULT, value, already=half)
+                fire(RESULT, value, already=half, pending=True)
                 continue
             send(RESULT, value)
             log("reply %d" % nreq)
